@@ -718,3 +718,92 @@ def check_batch_poly(sizes=None, fns=('normalize_batch', 'batch_convert_to_mul_b
             elif npaths == 0: obs.append(Ob(name, 'inconclusive', 'no feasible path', time.time() - t0, 'mirsym/POLY'))
             else: obs.append(Ob(name, 'proved', f'{npaths} paths', time.time() - t0, 'mirsym/POLY + cofactor certificates', {'paths': npaths}))
     return obs
+
+# ---------------------------------------------------------------------------------------------- conversions / unary element functions at coordinate level
+def check_unary_poly():
+    """Every function of src/ark_curve/element*.rs that maps one Element / AffinePoint to an Element / AffinePoint (the four `From`
+    conversions, into_affine, clear_cofactor, mul_by_cofactor_to_group, Clone, double_in_place), at coordinate level, on every path:
+    the result is a well-formed representative (on the curve; T Z = X Y for extended coordinates) of the same element (of 2P for
+    double_in_place) - compared as (x, y) = +-(X/Z, Y/Z), the two representatives decaf identifies.  (The free-group domain of
+    group.py cannot follow code that touches coordinates; this check can.)"""
+    items = items_for('ark'); obs = []
+    PP = r'ark_ec::twisted_edwards::Projective<ark_curve::edwards::Decaf377EdwardsConfig>'
+    d = FE.const('Fq', spec.Dd); one = FE.const('Fq', 1)
+    def m_inner_double(I, fr, fn, a):
+        p = I.deref(a[0])
+        if not (isinstance(p, Agg) and p.name == 'Projective'): return NotImplemented
+        x, y, t, z = p.fields
+        X3, Y3, Z3, T3 = dbl_proj(x, y, z, t)
+        I.store(a[0], Agg('Projective', [X3, Y3, T3, Z3])); return a[0]
+    def dbl_proj(x, y, z, t):
+        xn, xd, yn, yd = spec.edwards_add((x, y, z, t), (x, y, z, t))
+        return xn.mul(yd), yn.mul(xd), xd.mul(yd), xn.mul(yn)
+    extra = [(rf'^<{PP} as ark_ec::Group>::double_in_place$', m_inner_double)]
+    M = curve_models('ark', extra=extra)
+    cands = []
+    for k, it in sorted(items.items(), key=lambda kv: (kv[1].impl_at or ('', 0), kv[0])):
+        if it.kind != 'fn' or not it.impl_at or not it.impl_at[0].startswith('src/ark_curve/element') or '{closure' in k: continue
+        ps = [p[1] for p in it.params]
+        if len(ps) != 1 or not it.ret: continue
+        pt = re.sub(r"^&(mut )?", '', ps[0].strip()); rt = re.sub(r"^&(mut )?", '', it.ret.strip())
+        kinds = {'ark_curve::element::projective::Element': 'E', 'ark_curve::element::affine::AffinePoint': 'A'}
+        if pt in kinds and rt in kinds: cands.append((it, kinds[pt], kinds[rt], ps[0].strip().startswith('&')))
+    def coords_of(v, I):
+        v = models.D(I, v)
+        if isinstance(v, (Ref, SliceRef)): v = I.deref(v)
+        while isinstance(v, Agg) and v.name not in ('Projective', 'Affine') and len(v.fields) >= 1: v = v.fields[0]
+        if isinstance(v, Agg) and v.name == 'Projective': x, y, t, z = v.fields; return (x, y, z, t)
+        if isinstance(v, Agg) and v.name == 'Affine': x, y = v.fields[:2]; return (x, y, None, None)
+        raise Unsupported(f'not a point: {v!r}'[:120])
+    for it, pk, rk, isref in cands:
+        fname = it.name.split('::')[-1]
+        name = f'ark:{it.impl_at[0]}:{it.impl_at[1]} `{(it.impl_header() or "")[:50]}`::{fname} returns a well-formed representative of the same element (coordinate level)'
+        dbl = fname == 'double_in_place'
+        def body(I, h, it=it, pk=pk, isref=isref):
+            if pk == 'E':
+                el, co = sym_element('ark', ['X', 'Y', 'Z', 'T'])
+            else:
+                x, y = FE.sym('Fq', 'X'), FE.sym('Fq', 'Y')
+                el = Agg('ark_curve::element::affine::AffinePoint', [Agg('Affine', [x, y])]); co = (x, y, one, x.mul(y))
+            h.locals['e'] = el
+            if pk == 'E': I.ctx.nonzero = ['Z']
+            r = I.call_item(it, [Ref(h, 'e', []) if isref else el])
+            return r, co
+        t0 = time.time()
+        try: recs = run_paths(items, M, body, max_paths=500)
+        except Exception as e:
+            obs.append(Ob(name, 'inconclusive', f'{type(e).__name__}: {e} :: ' + ' <- '.join(getattr(e, 'mir_stack', [])[:3]), time.time() - t0, 'mirsym/POLY')); continue
+        bad = None; npaths = 0
+        for r in recs:
+            if 'pruned' in r: continue
+            zh = r['ctx'].__dict__.get('zero_hyps', {})
+            if any(h_.key() == FE.sym('Fq', 'Z').key() for h_ in zh.values()): continue
+            npaths += 1
+            if 'panic' in r: bad = f'panics on path {describe_path(r)}: ' + r['panic']; break
+            res, (X, Y, Z, T) = r['result']
+            try: x2, y2, z2, t2 = coords_of(res, r['interp'])
+            except Unsupported as e: bad = str(e); break
+            hyps = list(zh.values()) + side_polys(r['side'])
+            hyps += [Y.square().sub(X.square()).sub(Z.square()).sub(d.mul(T.square())), T.mul(Z).sub(X.mul(Y))]
+            if pk == 'E': hyps.append(Z.mul(FE.sym('Fq', 'ZI')).sub(one))
+            if dbl: X, Y, Z, T = dbl_proj(X, Y, Z, T)
+            goals = []
+            if z2 is None:
+                z2e = one
+                goals.append(('result on the curve', y2.square().sub(x2.square()).sub(one).sub(d.mul(x2.square()).mul(y2.square()))))
+            else:
+                z2e = z2
+                goals.append(("T' Z' = X' Y'", t2.mul(z2).sub(x2.mul(y2))))
+                goals.append(('result on the curve', y2.square().sub(x2.square()).mul(z2.square()).sub(z2.square().square()).sub(d.mul(x2.square()).mul(y2.square()))))
+            goals += [("x'^2 Z^2 = X^2 z'^2", x2.square().mul(Z.square()).sub(X.square().mul(z2e.square()))), ("y'^2 Z^2 = Y^2 z'^2", y2.square().mul(Z.square()).sub(Y.square().mul(z2e.square()))),
+                      ("x' Y = y' X", x2.mul(Y).sub(y2.mul(X)))]
+            for lbl, g in goals:
+                if g.is_zero_poly(): continue
+                st, dt, info = certificate(g, hyps)
+                if st != 'proved': bad = f'{lbl} fails on path {describe_path(r)}'; break
+            if bad: break
+        if bad: obs.append(Ob(name, 'violated', bad, time.time() - t0, 'mirsym/POLY + cofactor certificates', None, {'kind': 'conversion', 'which': fname, 'build': 'ark'}))
+        elif npaths == 0: obs.append(Ob(name, 'inconclusive', 'no feasible path', time.time() - t0, 'mirsym/POLY'))
+        else: obs.append(Ob(name, 'proved', f'{npaths} paths', time.time() - t0, 'mirsym/POLY + cofactor certificates', {'paths': npaths}))
+    if len(cands) < 8: obs.append(Ob('ark: unary element functions found', 'inconclusive', f'only {len(cands)}', 0, 'mirsym'))
+    return obs
